@@ -63,6 +63,14 @@ theorem C01_tokens_preserved_all_layouts (root : Node) (d : Twin.Doc) (h : token
     tokText xs = (specToks (prepare root)).toList :=
   certified_tokens root d h u m xs hl
 
+/-- T1.3r (with import reordering on): the same, with the items of every import statement in the
+order `importOrder` gives them (`reorderTree`); with reordering off that tree is the tree itself
+(`reorderTree_off`).  Certificate `tokensCertifiedR`, evaluated on every case run with the flag on. -/
+theorem C01_tokens_preserved_reorder (cfg : PConfig) (root : Node) (d : Twin.Doc)
+    (h : tokensCertifiedR cfg root d = true) (u w : Nat) :
+    tokText (best w 0 [⟨0, .brk, d.fam u⟩]) = (specToks (reorderTree cfg (prepare root))).toList :=
+  certified_tokensR cfg root d h u .brk _ (pretty_lay w _)
+
 /-- For a tree without comments and without `@typstyle off` regions (whose Space/Parbreak leaves are blank, as the parser's are) the prescribed token text is
 simply the kept characters of the source text. -/
 theorem C01_specToks_is_source_text (t : ANode) (h : t.noCommentNoVerbatim = true) (hb : t.blankSpaces = true) :
